@@ -27,7 +27,7 @@ def gen_cfg(rng):
     kind = rng.choice(["default", "gaponly", "dict", "dict", "dict"])
     if kind == "default":
         return {"kind": "default", "gap": 1.0}
-    gap = rng.choice([0.5, 1.0, 1.0, 2.0, 3.0])
+    gap = rng.choice([0.0, 0.5, 1.0, 1.0, 2.0, 3.0])
     if kind == "gaponly":
         return {"kind": "gaponly", "gap": gap, "matrix": {}, "opt": "max"}
     m = {}
@@ -43,7 +43,7 @@ def run(ctx):
     res = Result()
     res.rule = ("all pairs of sequences over {A,B,C} with lengths 0..3 (0..4 thorough) plus random pairs up to length 8 "
                 "(12), as str and as list; scoring: default, gap-only with custom gap cost, random dictionaries "
-                "(partial, one-sided keys) in max and min orientation, gap costs 0.5/1/2/3; traceback order None and all "
+                "(partial, one-sided keys) in max and min orientation, gap costs 0/0.5/1/2/3; traceback order None and all "
                 "6 permutations; value and score matrix compared exactly with the Lean model, every reconstructed "
                 "alignment checked (equal lengths, no gap-gap column, reduces to the inputs, scores the returned value) "
                 "and compared with the model traceback; non-trivial = both sequences non-empty and different")
@@ -57,6 +57,13 @@ def run(ctx):
         pairs.append(("".join(rng.choice(ALPHA) for _ in range(rng.randint(0, 12 if ctx.thorough else 8))),
                       "".join(rng.choice(ALPHA) for _ in range(rng.randint(0, 12 if ctx.thorough else 8)))))
     cfgs = [{"kind": "default", "gap": 1.0}] + [gen_cfg(rng) for _ in range(14 if ctx.thorough else 7)]
+    # boundary gap costs in every run: free gaps and a gap cost above every substitution score
+    cfgs.append({"kind": "gaponly", "gap": 0.0, "matrix": {}, "opt": "max"})
+    zero = gen_cfg(rng)
+    while zero["kind"] != "dict":
+        zero = gen_cfg(rng)
+    cfgs.append(dict(zero, gap=0.0))
+    cfgs.append(dict(zero, gap=7.0))
     orders = [None] + [list(p) for p in itertools.permutations([0, 1, 2])]
     ops, meta = [], []
     for pi, (s1, s2) in enumerate(pairs):
